@@ -64,6 +64,8 @@ def check_no_partial_reset(run, rule):
 def check(run):
     check_no_partial_reset(run, "R14.4")
     # the compression suffix is part of the name under which the output is written and published (R15.1/R15.2 imported)
+    from .. import derived as _derived
+    _derived.report(run, "R14.7", ["CDNS::Writer<std::basic_string<char>>", "CDNS::Writer<int>", "CDNS::CdnsEncoder", "CDNS::CborOutputWriter", "CDNS::GzipCborOutputWriter", "CDNS::XzCborOutputWriter", "CDNS::CdnsExporter"])
     from . import C15 as _C15, C06 as _C06
     _C15.check_names(_C06._Renamed(run, {"R15.1": "R14.6", "R15.2": "R14.6"}), "R15.1", "R15.2", only_names=True)
     facts = run.facts
